@@ -244,7 +244,7 @@ func c07ElementCuts(archive []byte) ([]int, error) {
 
 func c07Trees(a vh.Args, o *vh.Oracle, r *vh.Result, rng *vh.Rand) error {
 	trees := 2
-	maxK := 40
+	maxK := 24
 	if a.Tier == "thorough" {
 		trees = 8
 		maxK = 300
@@ -296,7 +296,7 @@ func c07Trees(a vh.Args, o *vh.Oracle, r *vh.Result, rng *vh.Rand) error {
 				if op == "untarindex" {
 					// the last requests, repeatedly: by then the feeder has handed everything out and only the
 					// assembler and the decoder are left to notice the cancellation
-					reps := 6
+					reps := 4
 					if a.Tier == "thorough" {
 						reps = 40
 					}
